@@ -19,7 +19,7 @@ package websocket
 
 // Everything queued is ready for the wire, lives in its own storage and apart from the write buffer.
 //@ pred wInv(s *Stream) =
-//@   s.codecConn != nil && sonic.ccInv(s.codecConn) &&
+//@   s.codecConn != nil && sonic.ccInvS(s.codecConn) &&
 //@   (forall j :: 0 <= j && j < len(s.pendingFrames) ==> poolFrame(s.pendingFrames[j])) &&
 //@   (forall j :: 0 <= j && j < len(s.pendingFrames) ==> frameWF(*s.pendingFrames[j])) &&
 //@   (forall j :: 0 <= j && j < len(s.pendingFrames) ==> ((s.role == RoleClient) == (((*s.pendingFrames[j])[1] & 128) != 0))) &&
@@ -233,7 +233,9 @@ package websocket
 //@   loop 1 invariant 0 <= i && i <= len(s.pendingFrames) && flushed == i && (err != nil ==> false)
 //@   loop 1 invariant len(s.pendingFrames) == old(len(s.pendingFrames)) && ptr(s.pendingFrames) == old(ptr(s.pendingFrames)) && s.state == old(s.state)
 //@   loop 1 invariant forall j :: 0 <= j && j < len(s.pendingFrames) ==> s.pendingFrames[j] == old(s.pendingFrames[j])
-//@   loop 1 invariant s.codecConn != nil && sonic.ccInv(s.codecConn)
+//@   loop 1 invariant s.codecConn != nil && sonic.ccInvS(s.codecConn)
+//@   // sizes: the buffers are assumed to stay below 2^46 bytes (the bound under which buffer arithmetic is exact)
+//@   assume call WriteNext: cap(s.codecConn.dst.data) <= 1<<46 && cap(s.codecConn.src.data) <= 1<<46
 //@   loop 1 invariant forall j :: i <= j && j < len(s.pendingFrames) ==> poolFrame(s.pendingFrames[j])
 //@   loop 1 invariant forall j :: i <= j && j < len(s.pendingFrames) ==> frameWF(*s.pendingFrames[j])
 //@   loop 1 invariant forall j :: i <= j && j < len(s.pendingFrames) ==> ((s.role == RoleClient) == (((*s.pendingFrames[j])[1] & 128) != 0))
